@@ -47,8 +47,8 @@ def split_props(name, default):
   return list(default), name
 
 
-def run_verus(path, args=(), timeout=600):
-  cmd = [VERUS, path, "--output-json", "--time", "--error-format=json", "--multiple-errors", "20"] + list(args)
+def run_verus(path, args=(), timeout=600, multiple_errors=20):
+  cmd = [VERUS, path, "--output-json", "--time", "--error-format=json", "--multiple-errors", str(multiple_errors)] + list(args)
   t0 = time.time()
   try:
     p = subprocess.run(cmd, capture_output=True, text=True, timeout=timeout, cwd=os.path.dirname(path))
@@ -151,12 +151,12 @@ def classify(gen, res, unit):
       detail = "%s at %s:%s `%s`" % (msg, org.get("file"), org.get("line"), gen.lines[ln - 1].strip()[:120])
       if callee_pre:
         detail += " ; callee precondition: " + callee_pre[0]["text"][:160]
-      fails.append({"name": "%s.safety" % fnname, "props": list(unit.safety_props), "msg": msg, "fn": fnname,
+      fails.append({"name": "%s.safety" % fnname, "props": safety_props_of(gen, unit, fnname), "msg": msg, "fn": fnname,
                     "clause": detail, "spans": others, "rendered": rendered, "src": "%s:%s" % (org.get("file"), org.get("line"))})
     elif kind in ("ensures", "invariant", "hint", "loop_ensures"):
       # unnamed auxiliary clause of an extracted function: counts against the function's aggregate obligation
       fnname = org.get("fn")
-      fails.append({"name": "%s.safety" % fnname, "props": list(unit.safety_props), "msg": msg, "fn": fnname,
+      fails.append({"name": "%s.safety" % fnname, "props": safety_props_of(gen, unit, fnname), "msg": msg, "fn": fnname,
                     "clause": "auxiliary %s `%s`: %s" % (kind, org.get("text"), msg), "spans": others, "rendered": rendered})
     elif kind in ("requires", "kw"):
       undec.append({"msg": msg, "at": org, "rendered": rendered})
@@ -164,6 +164,14 @@ def classify(gen, res, unit):
       # failure inside hand-written text (lemma / prelude): machinery problem, not a violation
       undec.append({"msg": "hand-written proof text failed: " + msg, "at": org, "rendered": rendered, "gen_line": ln})
   return fails, undec
+
+
+def safety_props_of(gen, unit, fnname):
+  for fd in gen.functions:
+    if fd["fn"] == fnname or fd["fn"].split("::")[-1] == fnname:
+      if fd.get("safety_props"):
+        return list(fd["safety_props"])
+  return list(unit.safety_props)
 
 
 def enclosing_fn(gen, ln):
@@ -174,6 +182,56 @@ def enclosing_fn(gen, ln):
       # find qualified name from functions table by order
       return m.group(1)
   return "?"
+
+
+def run_probes(unit, workdir, args):
+  """every contracted function gets an uncalled twin `<name>__vprobe` with the extra clause `ensures false`;
+  each twin must be REJECTED (else its precondition/assumptions are contradictory or no exit is reachable)"""
+  import copy
+  res = {"probe": {}, "undecided": []}
+  sub_parts = []
+  twins = {}
+  for p in unit.parts:
+    sub_parts.append(p)
+    if isinstance(p, vx.Fn) and p.probe:
+      q = copy.copy(p)
+      q.ensures = [c if isinstance(c, str) else c[1] for c in p.ensures] + [("VACUITY_PROBE", "false")]
+      base = (re.sub(r"^impl\s+", "", p.emit_impl).split("<")[0].strip() + "::") if p.emit_impl else ""
+      q.rename = base + (p.rename.split("::")[-1] if p.rename else p.name) + "__vprobe"
+      q.probe = False
+      q.loops = {k: {kk: ([c if isinstance(c, str) else c[1] for c in vv] if isinstance(vv, list) else vv) for kk, vv in v.items()} for k, v in p.loops.items()}
+      q.hints = list(p.hints)
+      twins[q.rename] = p
+      sub_parts.append(q)
+  if not twins:
+    return res
+  u2 = Unit(unit.name, unit.props, sub_parts, unit.safety_props)
+  try:
+    g2 = vx.generate(u2, probe=False)
+    p2 = os.path.join(workdir, "%s_probes.rs" % unit.name)
+    open(p2, "w").write("\n".join(g2.lines))
+    r2 = run_verus(p2, ["--verify-root", "--verify-function", "*__vprobe"] + list(args), timeout=600, multiple_errors=0)
+    rejected = set()
+    for d in r2["diags"]:
+      for sp in d.get("spans", []):
+        ln = sp["line_start"]
+        o = g2.origin[ln - 1] if 0 < ln <= len(g2.origin) else {}
+        if (o.get("name") or "").endswith("VACUITY_PROBE"):
+          rejected.add(o.get("fn"))
+    for qn in twins:
+      key = qn.replace("__vprobe", "")
+      if qn in rejected:
+        res["probe"][key] = "rejected"
+      else:
+        res["probe"][key] = "NOT-REJECTED"
+        res["undecided"].append({"msg": "vacuity probe: `ensures false` on %s was not rejected (contradictory precondition/assumption or unreachable exit?) rc=%s %s" % (key, r2["rc"], (r2["stderr"] or "")[-300:])})
+    try:
+      os.remove(p2)
+    except OSError:
+      pass
+  except vx.VxError as e:
+    res["undecided"].append({"msg": "vacuity probe generation failed: %s" % e})
+  return res
 
 
 def run_unit(unit, workdir, seed=0, probes=True, jobs=8):
@@ -197,6 +255,10 @@ def run_unit(unit, workdir, seed=0, probes=True, jobs=8):
     args += ["--rlimit", str(unit.rlimit)]
   if seed:
     args += ["--smt-option", "smt.random_seed=%d" % seed]
+  probe_future = None
+  if probes:
+    probe_ex = cf.ThreadPoolExecutor(max_workers=1)
+    probe_future = probe_ex.submit(run_probes, unit, workdir, list(args))
   res = run_verus(path, args)
   # a resource-limit hit decides nothing: retry the affected function alone with a 10x limit so that a false
   # obligation is reported as a crisp failure (and a slow-but-true one as discharged) instead of "unknown"
@@ -271,55 +333,17 @@ def run_unit(unit, workdir, seed=0, probes=True, jobs=8):
   for fdesc in gen.functions:
     alt = "%s.safety" % fdesc["fn"]
     bad = alt in failed_names
-    out["obligations"].append({"name": alt, "props": list(unit.safety_props), "fn": fdesc["fn"], "kind": "safety",
+    out["obligations"].append({"name": alt, "props": list(fdesc.get("safety_props") or unit.safety_props), "fn": fdesc["fn"], "kind": "safety",
                                "text": "all Verus-generated obligations in the verbatim body: no overflow/underflow, indices and slices in bounds, callee preconditions, termination measures",
                                "backend": "verus/z3", "verdict": "failed" if bad else "discharged", "ms": None})
   out["failures"] = fails
   out["undecided"] = undec
-  # ---- vacuity probes: per function, `ensures false` must be rejected
-  if probes and not undec:
-    targets = [p for p in unit.parts if isinstance(p, vx.Fn) and p.probe]
-    def one(i_fn):
-      i, f = i_fn
-      sub_parts = []
-      import copy
-      for p in unit.parts:
-        if p is f:
-          q = copy.copy(p)
-          q.ensures = list(p.ensures) + [("VACUITY_PROBE", "false")]
-          sub_parts.append(q)
-        else:
-          sub_parts.append(p)
-      u2 = Unit(unit.name, unit.props, sub_parts, unit.safety_props)
-      try:
-        g2 = vx.generate(u2, probe=False)
-      except vx.VxError as e:
-        return f.name, "error: %s" % e
-      p2 = os.path.join(workdir, "%s_probe%d.rs" % (unit.name, i))
-      open(p2, "w").write("\n".join(g2.lines))
-      fnn = f.rename.split("::")[-1] if f.rename else f.name
-      if f.emit_impl:
-        fnn = re.sub(r"^impl\s+", "", f.emit_impl).split("<")[0].strip() + "::" + fnn
-      r2 = run_verus(p2, ["--verify-root", "--verify-function", "*" + fnn] + args, timeout=300)
-      hit = False
-      for d in r2["diags"]:
-        for s in d.get("spans", []):
-          ln = s["line_start"]
-          o = g2.origin[ln - 1] if 0 < ln <= len(g2.origin) else {}
-          if o.get("name", "").endswith("VACUITY_PROBE"):
-            hit = True
-      try:
-        os.remove(p2)
-      except OSError:
-        pass
-      if hit:
-        return f.name, "rejected"
-      return f.name, "NOT-REJECTED rc=%s %s" % (r2["rc"], (r2["stderr"] or " ".join(d.get("message", "") for d in r2["diags"]))[-300:])
-    with cf.ThreadPoolExecutor(max_workers=jobs) as ex:
-      for name, verdict in ex.map(one, list(enumerate(targets))):
-        out["probe"][name] = verdict
-        if verdict != "rejected":
-          out["undecided"].append({"msg": "vacuity probe: `ensures false` on %s was %s (contradictory precondition/assumption or unreachable exit?)" % (name, verdict)})
+  # ---- vacuity probes (started concurrently with the main run, see start_probes)
+  if probe_future is not None:
+    pr = probe_future.result()
+    out["probe"].update(pr["probe"])
+    if not undec and not fails:
+      out["undecided"] += pr["undecided"]
   if out["undecided"]:
     out["status"] = "undecided"
   if out["failures"]:
